@@ -41,6 +41,11 @@ NULLARY_ACTIONS = [
 MOVE_ACTIONS = [
     ("shift", [("?a", "t1"), ("?i", "t1"), ("?j", "t1")], ["and", ["q", "?a", "?i"]],
      ["and", ["not", ["q", "?a", "?i"]], ["q", "?a", "?j"], ["increase", ["g"], "1"]]),
+    # a quantified conditional effect whose condition reads what the same action changes (effects are simultaneous: the
+    # condition is about the state before the action)
+    ("pulse", [("?a", "t1")], ["and"],
+     ["and", ["not", ["p", "?a"]], ["forall", ["?z", "-", "t1"], ["when", ["and", ["q", "?a", "?z"], ["p", "?a"]], ["p", "?z"]]],
+      ["assign", ["f", "?a"], "0"]]),
 ]
 
 
